@@ -64,44 +64,48 @@ theorem score_structure_fixed (sc sc' : AScore) (ops : List ScoreOp) (h : runOps
 /-- Whatever a Score was built from and whatever happened to it since: `merge_parts(score)` is the merge of the list
 `score.parts` as it is at the time of the call. -/
 theorem score_sees_parts (m : Mode) (s : Shape) (ops : List ScoreOp) (sc : AScore)
-    (h : runOps (mkScore s) ops = some sc) : mergeArg m (.score s ops) = mergeParts m sc.parts := by
+    (h : runOps (mkScore s) ops = some sc) :
+    mergeArg m (.score s ops) = mergeParts m (distinctParts sc.parts) := by
   simp [mergeArg, argParts, h]
 
 /-- ... in particular after `score.parts = ps` (the Score returned by `unfold_part_maximal` / `unfold_part_minimal`
 is a copy whose `.parts` were assigned the unfolded parts): exactly `ps` are merged, whatever came before -/
 theorem score_assign_last (m : Mode) (s : Shape) (ops : List ScoreOp) (sc : AScore)
     (h : runOps (mkScore s) ops = some sc) (ps : List APart) :
-    mergeArg m (.score s (ops ++ [.assign ps])) = mergeParts m ps := by
+    mergeArg m (.score s (ops ++ [.assign ps])) = mergeParts m (distinctParts ps) := by
   simp [mergeArg, argParts, runOps_append, h, runOps, ScoreOp.run]
 
 /-- ... and after `score[i] = p`: the part at position `i` is `p`, the others are the ones that were there -/
 theorem score_setitem_last (m : Mode) (s : Shape) (ops : List ScoreOp) (sc : AScore)
     (h : runOps (mkScore s) ops = some sc) (i : Nat) (p : APart) (hi : i < sc.parts.length) :
-    mergeArg m (.score s (ops ++ [.setItem i p])) = mergeParts m (sc.parts.set i p) := by
+    mergeArg m (.score s (ops ++ [.setItem i p])) = mergeParts m (distinctParts (sc.parts.set i p)) := by
   simp [mergeArg, argParts, runOps_append, h, runOps, ScoreOp.run, hi]
 
-/-- The merged part of a Score describes the parts the caller sees through `score.parts`: it holds exactly the images
-of the kept elements of THOSE parts (every element of the first, the non-discarded classes of the others), with the
-least common multiple of THEIR divisions.  All statements of Props/C15.lean and Props/C15Ext.lean about
-`mergeParts m ps` apply with `ps = sc.parts`. -/
+/-- The merged part of a Score describes the parts the caller sees through `score.parts` (each Part object once:
+`ps = distinctParts sc.parts`, which is `sc.parts` itself unless a part was put there twice): it holds exactly the
+images of the kept elements of THOSE parts (every element of the first, the non-discarded classes of the others), with
+the least common multiple of THEIR divisions.  All statements of Props/C15.lean and Props/C15Ext.lean about
+`mergeParts m ps` apply with that `ps`. -/
 theorem score_merged_contents (m : Mode) (s : Shape) (ops : List ScoreOp) (L : Nat) (es : List Elem)
     (h : mergeArg m (.score s ops) = some (.merged L es)) :
-    ∃ sc, runOps (mkScore s) ops = some sc ∧ mergeParts m sc.parts = some (.merged L es)
-      ∧ L = lcmList (sc.parts.map (·.divs))
-      ∧ ∀ e', e' ∈ es ↔ ∃ i p e, sc.parts[i]? = some p ∧ e ∈ p.elems ∧ keep m (i == 0) e = true
-                        ∧ e' = image m L sc.parts i p e := by
+    ∃ sc ps, runOps (mkScore s) ops = some sc ∧ ps = distinctParts sc.parts
+      ∧ ((sc.parts.map (·.pid)).Nodup → ps = sc.parts)
+      ∧ mergeParts m ps = some (.merged L es)
+      ∧ L = lcmList (ps.map (·.divs))
+      ∧ ∀ e', e' ∈ es ↔ ∃ i p e, ps[i]? = some p ∧ e ∈ p.elems ∧ keep m (i == 0) e = true
+                        ∧ e' = image m L ps i p e := by
   cases hr : runOps (mkScore s) ops with
   | none => simp [mergeArg, argParts, hr] at h
   | some sc =>
-    have h' : mergeParts m sc.parts = some (.merged L es) := by
+    have h' : mergeParts m (distinctParts sc.parts) = some (.merged L es) := by
       rw [← score_sees_parts m s ops sc hr]; exact h
     obtain ⟨_, _, _, hL, _⟩ := mergeParts_merged_iff.mp h'
     have hperm := merged_perm h'
-    exact ⟨sc, rfl, h', hL, fun e' => by rw [hperm.mem_iff, mem_merged]⟩
+    exact ⟨sc, _, rfl, rfl, distinctParts_of_nodup, h', hL, fun e' => by rw [hperm.mem_iff, mem_merged]⟩
 
 /-- a Score that is left with one part is that part, however many parts it was built from -/
 theorem score_single (m : Mode) (s : Shape) (ops : List ScoreOp) (sc : AScore)
-    (h : runOps (mkScore s) ops = some sc) (p : APart) (hp : sc.parts = [p]) :
+    (h : runOps (mkScore s) ops = some sc) (p : APart) (hp : distinctParts sc.parts = [p]) :
     mergeArg m (.score s ops) = some (.same p) := by
   rw [score_sees_parts m s ops sc h, hp]; simp [mergeParts]
 
